@@ -32,6 +32,7 @@ CHECKS['C02'] = dict(
         U('inpkg', 'TestVerifC02_Regress', q(), q(), pkg='algo'),
         U('inpkg', 'TestVerifC02_Witness', q(160000, 16), q(3200000, 16, cap=1500), pkg='algo'),
         U('inpkg', 'TestVerifC02_Long', q(320, 16), q(6400, 16, cap=1500), pkg='algo'),
+        U('inpkg', 'FuzzVerifC02_Witness', None, q(fuzz=120), pkg='algo'),
     ])
 
 CHECKS['C03'] = dict(
@@ -48,6 +49,7 @@ CHECKS['C03'] = dict(
         U('inpkg', 'TestVerifC03_Regress', q(), q(), pkg='algo'),
         U('inpkg', 'TestVerifC03_Exhaustive', q(1, 16), q(1, 16, cap=1800), pkg='algo'),
         U('inpkg', 'TestVerifC03_Random', q(64000, 16), q(1600000, 16, cap=1800), pkg='algo'),
+        U('inpkg', 'FuzzVerifC03_Random', None, q(fuzz=90), pkg='algo'),
         U('inpkg', 'TestVerifC03_BoundaryOrder', q(4000, 2), q(100000, 4), pkg='algo'),
     ])
 
@@ -60,6 +62,7 @@ CHECKS['C05'] = dict(
     units=[
         U('inpkg', 'TestVerifC05_Regress', q(), q(), pkg='algo'),
         U('inpkg', 'TestVerifC05_AlgoRelations', q(96000, 16), q(1600000, 16, cap=1800), pkg='algo'),
+        U('inpkg', 'FuzzVerifC05_Relations', None, q(fuzz=90), pkg='algo'),
         U('inpkg', 'TestVerifC05_SlabSequence', q(16000, 8), q(320000, 16, cap=1800), pkg='algo'),
         U('inpkg', 'TestVerifC05_SchemeHistory', q(8000, 4), q(160000, 8), pkg='algo'),
     ])
@@ -146,6 +149,9 @@ CHECKS['C10'] = dict(
         U('inpkg', 'TestVerifC10_Tokenize', q(160000, 16), q(3200000, 16, cap=1800), pkg='src'),
         U('inpkg', 'TestVerifC10_RangesRandom', q(80000, 16), q(1600000, 16, cap=1800), pkg='src'),
         U('inpkg', 'TestVerifC10_NthMatch', q(80000, 16), q(1600000, 16, cap=1800), pkg='src'),
+        U('inpkg', 'FuzzVerifC10_Tokenize', None, q(fuzz=60), pkg='src'),
+        U('inpkg', 'FuzzVerifC10_Ranges', None, q(fuzz=60), pkg='src'),
+        U('inpkg', 'FuzzVerifC10_NthMatch', None, q(fuzz=60), pkg='src'),
     ])
 
 CHECKS['C11'] = dict(
@@ -159,6 +165,8 @@ CHECKS['C11'] = dict(
         U('inpkg', 'TestVerifC11_Regress', q(), q(), pkg='src'),
         U('inpkg', 'TestVerifC11_ArbitraryBytes', q(320000, 16), q(4800000, 16, cap=1800), pkg='src'),
         U('inpkg', 'TestVerifC11_Grammar', q(160000, 16), q(2400000, 16, cap=1800), pkg='src'),
+        U('inpkg', 'FuzzVerifC11_Bytes', None, q(fuzz=120), pkg='src'),
+        U('inpkg', 'FuzzVerifC11_Grammar', None, q(fuzz=90), pkg='src'),
     ])
 
 CHECKS['C12'] = dict(
@@ -172,6 +180,7 @@ CHECKS['C12'] = dict(
         U('inpkg', 'TestVerifC12_PlaceholderFile', q(4800, 4), q(64000, 8), pkg='src'),
         U('inpkg', 'TestVerifC12_FishModel', q(20000, 2), q(400000, 4), pkg='src'),
         U('inpkg', 'TestVerifC12_TmuxRequote', q(3200, 16, cap=400), q(64000, 16, cap=1800), pkg='src'),
+        U('inpkg', 'FuzzVerifC12_Tmux', None, q(fuzz=60), pkg='src'),
     ])
 
 CHECKS['C18'] = dict(
@@ -181,6 +190,7 @@ CHECKS['C18'] = dict(
     assumptions=['initial files have no interior blank lines (fzf loads them as empty entries; the documentation is silent)', 'the cap is asserted after a submit, as the property words it'],
     units=[
         U('inpkg', 'TestVerifC18_HistorySessions', q(32000, 16), q(640000, 16, cap=1800), pkg='src'),
+        U('inpkg', 'FuzzVerifC18_History', None, q(fuzz=60), pkg='src'),
     ])
 
 CHECKS['C17'] = dict(
@@ -198,6 +208,9 @@ CHECKS['C17'] = dict(
         U('inpkg', 'TestVerifC17_LastWinsVocabulary', q(48000, 16), q(960000, 16, cap=1800), pkg='src'),
         U('inpkg', 'TestVerifC17_EnvPrecedence', q(8000, 8), q(160000, 16, cap=1800), pkg='src'),
         U('inpkg', 'TestVerifC17_SubParsers', q(64000, 16), q(1600000, 16, cap=1800), pkg='src'),
+        U('inpkg', 'FuzzVerifC17_Argv', None, q(fuzz=120), pkg='src'),
+        U('inpkg', 'FuzzVerifC17_Bind', None, q(fuzz=90), pkg='src'),
+        U('inpkg', 'FuzzVerifC17_SubParsers', None, q(fuzz=60), pkg='src'),
         U('proc', 'TestVerifC17_ProcRejects', q(1600, 16, cap=600), q(32000, 16, cap=2400), needs_fzf=True),
     ])
 
@@ -212,6 +225,8 @@ CHECKS['C16'] = dict(
         U('inpkg', 'TestVerifC16_Regress', q(), q(), pkg='src'),
         U('inpkg', 'TestVerifC16_RequestGrammar', q(48000, 16), q(960000, 16, cap=1800), pkg='src'),
         U('inpkg', 'TestVerifC16_ArbitraryBytes', q(24000, 16), q(480000, 16, cap=1800), pkg='src'),
+        U('inpkg', 'FuzzVerifC16_Bytes', None, q(fuzz=120), pkg='src'),
+        U('inpkg', 'FuzzVerifC16_Grammar', None, q(fuzz=90), pkg='src'),
         U('inpkg', 'TestVerifC16_ListenAddress', q(2000, 1), q(20000, 1), pkg='src'),
         U('proc', 'TestVerifC16_ProcNonLocal', q(cap=300), q(cap=300), needs_fzf=True),
         U('proc', 'TestVerifC16_ProcUnsafeFilter', q(320, 16, cap=600), q(1600, 16, cap=2400), needs_fzf=True),
@@ -281,6 +296,7 @@ CHECKS['C14'] = dict(
         U('proc', 'TestVerifC14_Sessions', q(320, 16, cap=900), q(6400, 16, cap=3000), needs_fzf=True),
         U('proc', 'TestVerifC14_PreviewTempFileAtExit', q(320, 16, cap=900), q(6400, 16, cap=3000), needs_fzf=True),
         U('proc', 'TestVerifC14_Regress', q(16, 4, cap=300), q(64, 8, cap=600), needs_fzf=True),
+        U('proc', 'TestVerifC14_HeaderLinesWhileSearching', q(32, 8, cap=600), q(320, 16, cap=1800), needs_fzf=True),
     ])
 
 CHECKS['C15'] = dict(
